@@ -200,8 +200,65 @@ def r12_5(ck, F):
                   f"while the result is awaited", b.loc(res[0]["yield_bb"]))
 
 
+def r12_6(ck, F):
+    ck.rule("R12.6", "every method of a remote trait is remote: for each #[remote] trait of the analysed user crate, the "
+            "generated client implements every trait method itself (also those with a default body) by constructing the "
+            "request variant of that method, every method has a request variant, and every request variant is dispatched to "
+            "the trait method of the same name",
+            "a default-bodied method that the served target overrides: the client inherits the trait's default body, runs it "
+            "locally and returns Ok(value) although the callee ran zero times", floor=20)
+
+    def pascal(n):
+        return "".join(x[:1].upper() + x[1:] for x in n.split("_"))
+    n = 0
+    for cname, crate in F.crates.items():
+        if not cname.startswith(USER_CRATES):
+            continue
+        fns = crate["fns"]
+        adts = {a["path"]: a for a in crate["adts"]}
+        for tr in crate.get("traits", []):
+            tname = tr["path"].split("::")[-1]
+            req = adts.get(tr["path"] + "Req") or next((a for p, a in adts.items() if p.split("::")[-1] == tname + "Req"), None)
+            if req is None:
+                continue        # not a #[remote] trait
+            variants = {v["name"] for v in req["variants"] if not v["name"].startswith("__")}
+            client = [f for f in fns if f.get("impl_trait", "").split("::")[-1] == tname and
+                      (f.get("impl_adt") or "").split("::")[-1] == tname + "Client"]
+            cnames = {f["name"] for f in client}
+            for m in tr["items"]:
+                n += 1
+                site = f"{tname}::{m}"
+                ck.expect(m in cnames, site + "#client-forwards", "client implements the method",
+                          f"the generated {tname}Client does not implement `{m}` itself: calls run the trait's default body locally "
+                          f"instead of being sent to the server", None)
+                ck.expect(pascal(m) in variants, site + "#request-variant", f"request variant {pascal(m)}",
+                          f"no request variant for `{tname}::{m}` in {tname}Req ({sorted(variants)})", None)
+                if m in cnames:
+                    f = next(f for f in client if f["name"] == m)
+                    bodies = [b for b in F.by_dp.values() if b.crate == cname.split(".")[0] and
+                              mir.strip_generics(b.path).endswith(f"Client as {tname}>::{m}::{{closure#0}}")] or \
+                             [b for b in F.by_dp.values() if b.crate == cname.split(".")[0] and f"Client<" in b.path and
+                              b.path.split(">::")[-1].split("::")[0] == m and f" as {tname}" in b.path.replace(f"{cname.split('.')[0]}::", "")]
+                    built = {rv["variant"] for b in bodies for bb, i, rv in b.aggregates() if rv.get("adt", "").split("::")[-1].startswith(tname + "Req")}
+                    fam = set(built)
+                    for b in bodies:
+                        for k in F.kids(b) if hasattr(F, "kids") else []:
+                            fam |= {rv["variant"] for bb, i, rv in k.aggregates() if rv.get("adt", "").split("::")[-1].startswith(tname + "Req")}
+                    ck.expect(pascal(m) in fam, site + "#client-builds-request", f"client method builds {pascal(m)}",
+                              f"{tname}Client::{m} does not construct the request variant {pascal(m)} (built: {sorted(fam)})", None)
+            # dispatch: each variant's arm calls the trait method of the same name
+            disp = {}
+            for b, meth, kind in dispatch_coroutines(F):
+                if meth and meth[0].split("::")[-1] == tname:
+                    disp.setdefault(meth[1], []).append(b)
+            for m in tr["items"]:
+                ck.expect(m in disp, f"{tname}::{m}#dispatched", "a dispatch future calls the trait method",
+                          f"no generated dispatch future calls {tname}::{m}", None)
+    ck.expect(n >= 15, "remote-traits#methods", f"{n} remote trait methods", f"only {n} remote trait methods found", None)
+
+
 def run(ck, F):
     import c19
-    for r in (r12_1, r12_2, r12_3, r12_4, r12_5):
+    for r in (r12_1, r12_2, r12_3, r12_4, r12_5, r12_6):
         ck.run_rule(r)
     ck.run_rule(c19.r19_1)      # #[no_cancel] is what makes a mutable method atomic w.r.t. an abandoned call
